@@ -517,5 +517,5 @@ pub fn diff(ty: &Ty, a: &Val, b: &Val) -> Option<String> {
 
 pub fn short(v: &Val) -> String {
     let s = format!("{v:?}");
-    if s.len() > 60 { format!("{}…", &s[..60]) } else { s }
+    if s.chars().count() > 160 { format!("{}…", s.chars().take(160).collect::<String>()) } else { s }
 }
